@@ -23,7 +23,14 @@ Record script := {
   sc_dur : N;       (* how long jobFunc takes *)
   sc_ticks : N;     (* periodic: how many times runtimeFunc returns a time before ErrNoMoreInstances *)
   sc_calls : list call;
-  sc_end : N        (* last simulated instant; observations are taken after it *)
+  sc_end : N;       (* last simulated instant; observations are taken after it *)
+  sc_behind : option N
+                    (* periodic, what runtimeFunc returns.  None: a time relative to the moment it is asked
+                       (now + period; period 0 = "now": every instance is due the moment it is handed out).
+                       Some b: a FIXED-RATE schedule whose origin lies b instants before the script's start:
+                       the k-th instance (k = 1, 2, ...) is at k*period - b, whatever the moment it is asked
+                       for -- an instance whose time has passed (the job overran its period, or the schedule
+                       started behind: a catch-up) is due at once *)
 }.
 
 Definition sc_cfg (sc : script) : config := {| k_kind := sc_kind sc; k_variant := sc_variant sc |}.
@@ -54,6 +61,14 @@ Definition t_init (sc : script) : tstate :=
      t_deadline := match sc_kind sc with OneOff => sc_due sc | Periodic => 0 end;
      t_rt_left := sc_ticks sc;
      t_starts := [] |}.
+
+(* the time runtimeFunc returns when asked at instant [now] (a time that has passed reads as "due at once":
+   time.After of a non-positive duration fires immediately; the subtraction of N truncates at 0) *)
+Definition next_deadline (sc : script) (now : N) (t : tstate) : N :=
+  match sc_behind sc with
+  | None => now + sc_due sc
+  | Some b => (sc_ticks sc - N.pred (t_rt_left t)) * sc_due sc - b
+  end.
 
 Definition with_core (t : tstate) (c : jstate) : tstate :=
   {| t_core := c; t_calls := t_calls t; t_busy_until := t_busy_until t; t_deadline := t_deadline t;
@@ -142,7 +157,7 @@ Definition g_moves (sc : script) (now : N) (t : tstate) : list tstate :=
   | GRt =>
       if 0 <? t_rt_left t then
         map (fun c' => {| t_core := c'; t_calls := t_calls t; t_busy_until := t_busy_until t;
-                          t_deadline := now + sc_due sc; t_rt_left := N.pred (t_rt_left t); t_starts := t_starts t |})
+                          t_deadline := next_deadline sc now t; t_rt_left := N.pred (t_rt_left t); t_starts := t_starts t |})
             (opt_list (step cf c (GRtOut RtNext)))
       else core (GRtOut RtStop)
   | GRunBusy | GTimBusy => if t_busy_until t <=? now then core JobReturn else []
